@@ -87,6 +87,25 @@ static bool ortho_path_exists(int G, const vector<Poly> &sc, P a, P b) {
 }
 
 // ---- C03 ------------------------------------------------------------------------------
+// classes of an offending segment (ax,ay)-(bx,by) that cuts shape sh of the scene scS (library coordinates, creation order):
+// through_vertex: the segment crosses the boundary of the shape it cuts exactly at a vertex -- a vertex of any shape strictly
+//   inside the segment and on the cut shape's boundary, or a segment end that coincides with a vertex of the cut shape
+//   (same definition as in the C06 harness)
+// chord_from_newer_vertex: an end of the segment lies on the cut shape's boundary and is a vertex of a shape created AFTER the
+//   cut shape (the edge was produced by the visibility sweep for the newer shape, whose centre sat on that boundary).
+//   An edge between vertices of OLDER shapes that a newly added shape fails to block is NOT in the class.
+static void cut_classes(const Poly &sh, const vector<Poly> &scS, double ax, double ay, double bx, double by, bool ortho, vector<string> &kc2) {
+    bool tv = false; double L = (bx - ax) * (bx - ax) + (by - ay) * (by - ay);
+    for (auto &v : sh.v) { double cr = (bx - ax) * (v.y - ay) - (v.x - ax) * (by - ay), dt = (v.x - ax) * (bx - ax) + (v.y - ay) * (by - ay); if (cr == 0 && (dt == 0 || dt == L)) tv = true; }
+    for (auto &o : scS) for (auto &v : o.v) { double cr = (bx - ax) * (v.y - ay) - (v.x - ax) * (by - ay), dt = (v.x - ax) * (bx - ax) + (v.y - ay) * (by - ay); if (!(cr == 0 && dt > 0 && dt < L)) continue;
+        bool onB = false; for (size_t e = 0; e < sh.v.size(); e++) { P u = sh.v[e], w2 = sh.v[(e + 1) % sh.v.size()]; if (cross(u, w2, v) == 0 && dot(u, w2, v) >= 0 && dot(w2, u, v) >= 0) onB = true; } if (onB) tv = true; }
+    if (tv && !ortho) kc2.push_back("through_vertex");
+    { size_t ci = &sh - &scS[0]; bool aOn = false, bOn = false, newer = false;
+      for (size_t e = 0; e < sh.v.size(); e++) { P u = sh.v[e], w2 = sh.v[(e + 1) % sh.v.size()]; P pa{(ll)ax, (ll)ay}, pb{(ll)bx, (ll)by};
+          if (cross(u, w2, pa) == 0 && dot(u, w2, pa) >= 0 && dot(w2, u, pa) >= 0) aOn = true; if (cross(u, w2, pb) == 0 && dot(u, w2, pb) >= 0 && dot(w2, u, pb) >= 0) bOn = true; }
+      for (size_t j = ci + 1; j < scS.size(); j++) for (auto &v : scS[j].v) if ((aOn && v.x == ax && v.y == ay) || (bOn && v.x == bx && v.y == by)) newer = true;
+      if (newer && !ortho) kc2.push_back("chord_from_newer_vertex"); }
+}
 static void judge_valid(const vector<Poly> &sc, const vector<Poly> &scS, P a, P b, const Avoid::PolyLine &r, bool ortho, int G,
                         const string &what, const vector<string> &kc) {
     // scS = shapes in library coordinates (scaled by S)
@@ -103,22 +122,7 @@ static void judge_valid(const vector<Poly> &sc, const vector<Poly> &scS, P a, P 
         ctx.violation("endpoints_moved", kc, desc, route_str(r));
     for (size_t k = 1; k < r.size(); k++) for (auto &sh : scS)
         if (hitsInteriorD(sh, r.ps[k - 1].x, r.ps[k - 1].y, r.ps[k].x, r.ps[k].y, 1e-6)) {
-            // class through_vertex (same definition as in the C06 harness): the offending segment crosses the boundary of the shape it
-            // cuts exactly at a vertex -- a vertex of any shape strictly inside the segment and on the cut shape's boundary, or a
-            // segment end that coincides with a vertex of the cut shape
-            vector<string> kc2 = kc; bool tv = false; double ax = r.ps[k - 1].x, ay = r.ps[k - 1].y, bx = r.ps[k].x, by = r.ps[k].y, L = (bx - ax) * (bx - ax) + (by - ay) * (by - ay);
-            for (auto &v : sh.v) { double cr = (bx - ax) * (v.y - ay) - (v.x - ax) * (by - ay), dt = (v.x - ax) * (bx - ax) + (v.y - ay) * (by - ay); if (cr == 0 && (dt == 0 || dt == L)) tv = true; }
-            for (auto &o : scS) for (auto &v : o.v) { double cr = (bx - ax) * (v.y - ay) - (v.x - ax) * (by - ay), dt = (v.x - ax) * (bx - ax) + (v.y - ay) * (by - ay); if (!(cr == 0 && dt > 0 && dt < L)) continue;
-                bool onB = false; for (size_t e = 0; e < sh.v.size(); e++) { P u = sh.v[e], w2 = sh.v[(e + 1) % sh.v.size()]; if (cross(u, w2, v) == 0 && dot(u, w2, v) >= 0 && dot(w2, u, v) >= 0) onB = true; } if (onB) tv = true; }
-            if (tv && !ortho) kc2.push_back("through_vertex");
-            // class chord_from_newer_vertex: an end of the segment lies on the cut shape's boundary and is a vertex of a shape created
-            // AFTER the cut shape (the edge was produced by the visibility sweep for the newer shape, whose centre sat on that boundary).
-            // An edge between vertices of OLDER shapes that a newly added shape fails to block is NOT in the class.
-            { size_t ci = &sh - &scS[0]; bool aOn = false, bOn = false, newer = false;
-              for (size_t e = 0; e < sh.v.size(); e++) { P u = sh.v[e], w2 = sh.v[(e + 1) % sh.v.size()]; P pa{(ll)ax, (ll)ay}, pb{(ll)bx, (ll)by};
-                  if (cross(u, w2, pa) == 0 && dot(u, w2, pa) >= 0 && dot(w2, u, pa) >= 0) aOn = true; if (cross(u, w2, pb) == 0 && dot(u, w2, pb) >= 0 && dot(w2, u, pb) >= 0) bOn = true; }
-              for (size_t j = ci + 1; j < scS.size(); j++) for (auto &v : scS[j].v) if ((aOn && v.x == ax && v.y == ay) || (bOn && v.x == bx && v.y == by)) newer = true;
-              if (newer && !ortho) kc2.push_back("chord_from_newer_vertex"); }
+            vector<string> kc2 = kc; cut_classes(sh, scS, r.ps[k - 1].x, r.ps[k - 1].y, r.ps[k].x, r.ps[k].y, ortho, kc2);
             ctx.violation("through_shape", kc2, desc, route_str(r)); return; }
     if (ortho) for (size_t k = 1; k < r.size(); k++) if (r.ps[k].x != r.ps[k - 1].x && r.ps[k].y != r.ps[k - 1].y) { ctx.violation("not_orthogonal", kc, desc, route_str(r)); return; }
 }
@@ -189,6 +193,90 @@ static void c03_orders_phase(int G, int k, int epStep) {
             } catch (vpsc::CriticalFailure &f) { ctx.library_abort(f.what(), "polyline creation order " + scene_str(sc)); }
             ctx.done_case();
         } while (next_permutation(perm.begin(), perm.end()));
+    });
+}
+
+
+// ---- C03, shape-attached ends and option sets ----------------------------------------------
+// The ordinary use of libavoid: connectors run between *shapes* (centre pins), not free points.  Every scene of k rectangles,
+// a centre pin on each, one connector for every pair of shapes and one from every shape to every free grid point, all routed in
+// one transaction, under several option/penalty sets.  "shapes that contain one of its endpoints" = the attached shapes.
+struct OptSet { const char *name; double crossing, angle, shared, reverse; bool penaliseEnds, unify, touching; };
+static const OptSet OPTSETS[] = {
+    {"defaults", 0, 0, 0, 0, false, true, false},
+    {"crossing+sharedPath+angle penalties", 200, 30, 110, 0, false, true, false},
+    {"penaliseOrthogonalSharedPathsAtConnEnds, no unifying step, nudge touching colinear", 0, 0, 50, 0, true, false, true},
+    {"reverseDirectionPenalty+crossingPenalty", 100, 0, 0, 60, false, true, false},
+};
+static void c03_attached_phase(int G, int k, bool ortho, double buf, int os) {
+    vector<Poly> alpha = shape_alphabet(G, false);
+    const OptSet &O = OPTSETS[os];
+    ctx.phase(mcx::fmt("C03 %s G=%d rectangles=%d buffer=%g, ends attached to shape centre pins, options: %s", ortho ? "orthogonal" : "polyline", G, k, buf, O.name));
+    for_scenes(alpha, k, 0, false, [&](const vector<Poly> &sc) {
+        bool close = false;
+        if (buf > 0) for (size_t i = 0; i < sc.size(); i++) for (size_t j = i + 1; j < sc.size(); j++) if (polyDist(sc[i], sc[j]) * S < 2 * buf + 1e-9) close = true;
+        if (close) return;                      // overlapping buffers: KF-C03-1, judged by the free-point phases
+        if (!ctx.next()) return;
+        ctx.count("states"); ctx.sample((ortho ? "orthogonal attached " : "polyline attached ") + scene_str(sc), 1);
+        vector<P> fr = free_points(sc, G); vector<Poly> scS = scaled(sc);
+        string what = mcx::fmt("%s attached buf=%g options[%s]", ortho ? "orthogonal" : "polyline", buf, O.name);
+        try {
+            Avoid::Router *r = mk_router(ortho, ortho ? 10 : 0, buf, {});
+            r->setRoutingParameter(Avoid::crossingPenalty, O.crossing); r->setRoutingParameter(Avoid::anglePenalty, O.angle);
+            r->setRoutingParameter(Avoid::fixedSharedPathPenalty, O.shared); r->setRoutingParameter(Avoid::reverseDirectionPenalty, O.reverse);
+            r->setRoutingOption(Avoid::penaliseOrthogonalSharedPathsAtConnEnds, O.penaliseEnds);
+            r->setRoutingOption(Avoid::performUnifyingNudgingPreprocessingStep, O.unify);
+            r->setRoutingOption(Avoid::nudgeOrthogonalTouchingColinearSegments, O.touching);
+            vector<Avoid::ShapeRef *> shs; for (auto &sh : sc) { Avoid::Polygon pg(sh.v.size()); for (size_t q = 0; q < sh.v.size(); q++) pg.ps[q] = Avoid::Point(sh.v[q].x * S, sh.v[q].y * S); shs.push_back(new Avoid::ShapeRef(r, pg)); }
+            for (auto *sh : shs) new Avoid::ShapeConnectionPin(sh, Avoid::CONNECTIONPIN_CENTRE, Avoid::ATTACH_POS_CENTRE, Avoid::ATTACH_POS_CENTRE, true, 0.0, Avoid::ConnDirNone);
+            struct CI { int a, b; P q; Avoid::ConnRef *c; }; vector<CI> cs;
+            for (int i = 0; i < k; i++) for (int j = i + 1; j < k; j++) cs.push_back({i, j, P{0, 0}, new Avoid::ConnRef(r, Avoid::ConnEnd(shs[i], Avoid::CONNECTIONPIN_CENTRE), Avoid::ConnEnd(shs[j], Avoid::CONNECTIONPIN_CENTRE))});
+            for (int i = 0; i < k; i++) for (auto &q : fr) cs.push_back({i, -1, q, new Avoid::ConnRef(r, Avoid::ConnEnd(shs[i], Avoid::CONNECTIONPIN_CENTRE), Avoid::ConnEnd(Avoid::Point(q.x * S, q.y * S)))});
+            r->processTransaction();
+            for (auto &ci : cs) {
+                ctx.count("transitions"); ctx.count("evaluations");
+                const Avoid::PolyLine &rt = ci.c->displayRoute();
+                // everything doubled so that rectangle centres are integers
+                auto dbl = [](const Poly &p) { Poly o = p; for (auto &v : o.v) { v.x *= 2; v.y *= 2; } return o; };
+                R ra = toR(sc[ci.a]); P s2{ra.x0 + ra.x1, ra.y0 + ra.y1}, t2;
+                if (ci.b >= 0) { R rb = toR(sc[ci.b]); t2 = P{rb.x0 + rb.x1, rb.y0 + rb.y1}; } else t2 = P{2 * ci.q.x, 2 * ci.q.y};
+                vector<Poly> others2, othersS; for (int m = 0; m < k; m++) if (m != ci.a && m != ci.b) { others2.push_back(dbl(sc[m])); othersS.push_back(scS[m]); }
+                string desc = what + " scene " + scene_str(sc) + (ci.b >= 0 ? mcx::fmt(" conn shape#%d -> shape#%d", ci.a, ci.b) : mcx::fmt(" conn shape#%d -> (%lld,%lld)", ci.a, ci.q.x, ci.q.y));
+                bool blocked = false; for (auto &o : others2) if (hitsInterior(o, s2, t2)) blocked = true;
+                if (blocked) ctx.count("nontrivial");
+                bool pathExists;
+                if (!ortho) { VisGraph vg(others2, s2, t2); pathExists = vg.reachable(); }
+                else {
+                    // 4x grid: doubled coordinates doubled again so that the thin blockers closing zero-width corridors fit
+                    vector<R> r4; for (int m = 0; m < k; m++) if (m != ci.a && m != ci.b) { R q = toR(sc[m]); r4.push_back({4 * q.x0, 4 * q.y0, 4 * q.x1, 4 * q.y1}); }
+                    for (int m = 0; m < k; m++) for (int n = 0; n < k; n++) if (m != n) { R A = toR(sc[m]), B = toR(sc[n]);
+                        if (A.x1 == B.x0) { int lo = max(A.y0, B.y0), hi = min(A.y1, B.y1); if (lo < hi) r4.push_back({4 * A.x1 - 1, 4 * lo, 4 * A.x1 + 1, 4 * hi}); }
+                        if (A.y1 == B.y0) { int lo = max(A.x0, B.x0), hi = min(A.x1, B.x1); if (lo < hi) r4.push_back({4 * lo, 4 * A.y1 - 1, 4 * hi, 4 * A.y1 + 1}); } }
+                    OrthoGrid og(4 * G, r4); pathExists = og.best(2 * s2.x, 2 * s2.y, 2 * t2.x, 2 * t2.y, 0, 15, 15, 4) < 1e17;
+                }
+                if (!pathExists) { ctx.count("no_free_path"); continue; }
+                if (rt.size() < 2) { ctx.violation("route_too_short", {"attached"}, desc, route_str(rt)); continue; }
+                double sx = s2.x * S / 2.0, sy = s2.y * S / 2.0, tx = t2.x * S / 2.0, ty = t2.y * S / 2.0;
+                if (rt.ps[0].x != sx || rt.ps[0].y != sy || rt.ps[rt.size() - 1].x != tx || rt.ps[rt.size() - 1].y != ty) ctx.violation("endpoints_moved", {"attached"}, desc, route_str(rt));
+                bool bad = false;
+                for (size_t q = 1; q < rt.size() && !bad; q++) for (int m = 0; m < k && !bad; m++) if (m != ci.a && m != ci.b && hitsInteriorD(scS[m], rt.ps[q - 1].x, rt.ps[q - 1].y, rt.ps[q].x, rt.ps[q].y, 1e-6)) {
+                    bad = true; vector<string> kc2{"attached"}; cut_classes(scS[m], scS, rt.ps[q - 1].x, rt.ps[q - 1].y, rt.ps[q].x, rt.ps[q].y, ortho, kc2);
+                    // class ray_through_abutting_shape_with_aligned_pin: the offending segment starts/ends at the centre pin of an attached
+                    // shape, is axis-parallel, the cut shape ABUTS that attached shape (closed rectangles meet) and the cut shape's own centre
+                    // pin lies on the segment's line: the two pins' visibility segments touch on the common side and are merged into one
+                    // line of sight that runs through the cut shape.
+                    for (int e : {ci.a, ci.b}) if (e >= 0) { R re = toR(sc[e]), rc = toR(sc[m]); double ex = (re.x0 + re.x1) * S / 2.0, ey = (re.y0 + re.y1) * S / 2.0, cx = (rc.x0 + rc.x1) * S / 2.0, cy = (rc.y0 + rc.y1) * S / 2.0;
+                        bool atEnd = (q == 1 && rt.ps[0].x == ex && rt.ps[0].y == ey) || (q + 1 == rt.size() && rt.ps[q].x == ex && rt.ps[q].y == ey);
+                        bool abut = !(re.x1 < rc.x0 || rc.x1 < re.x0 || re.y1 < rc.y0 || rc.y1 < re.y0);
+                        bool vert = rt.ps[q - 1].x == rt.ps[q].x, hori = rt.ps[q - 1].y == rt.ps[q].y;
+                        if (atEnd && abut && ((vert && cx == ex) || (hori && cy == ey)) && find(kc2.begin(), kc2.end(), "ray_through_abutting_shape_with_aligned_pin") == kc2.end()) kc2.push_back("ray_through_abutting_shape_with_aligned_pin"); }
+                    ctx.violation("through_shape", kc2, desc, route_str(rt)); }
+                if (bad) continue;
+                if (ortho) for (size_t q = 1; q < rt.size(); q++) if (rt.ps[q].x != rt.ps[q - 1].x && rt.ps[q].y != rt.ps[q - 1].y) { ctx.violation("not_orthogonal", {"attached"}, desc, route_str(rt)); break; }
+            }
+            delete r;
+        } catch (vpsc::CriticalFailure &f) { ctx.library_abort(f.what(), what + " scene " + scene_str(sc)); }
+        ctx.done_case();
     });
 }
 
@@ -345,6 +433,8 @@ int main(int argc, char **argv) {
         c03_phase(3, 1, false, 2, false); c03_phase(3, 2, false, 2, false); c03_phase(3, 2, true, 2, false);
         c03_phase(3, 2, false, 2, true); c03_phase(3, 2, true, 2, true);
         c03_orders_phase(3, 2, 1); c03_orders_phase(3, 3, 3);
+        for (int os = 0; os < 4; os++) for (int ortho = 0; ortho < 2; ortho++) { c03_attached_phase(3, 2, ortho, 0, os); if (os == 0 || T) c03_attached_phase(3, 3, ortho, 0, os); }
+        c03_attached_phase(3, 2, false, 2, 0); c03_attached_phase(3, 2, true, 2, 0); c03_attached_phase(3, 2, true, 2, 1);
         if (T) { c03_orders_phase(3, 3, 1); c03_orders_phase(4, 2, 1); c03_phase(4, 2, true, 0, false); c03_phase(4, 2, false, 0, false); c03_phase(3, 3, true, 0, false); c03_phase(3, 3, false, 0, false); c03_phase(4, 2, true, 2, false); }
     } else if (PROP == "C04") {
         for (double pen : {0.0, 0.5, 3.0}) { c04_phase(4, 1, pen, true); c04_phase(T ? 4 : 3, 2, pen, true); c04_phase(4, 2, pen, false); }
